@@ -80,7 +80,7 @@ func (d *Ar) Next() (*ArEntry, error) {
 	if count == 0 && err == io.EOF {
 		return nil, io.EOF
 	}
-	if count == 1 && line[0] == '\n' {
+	if count == 1 && line[0] == '\n' && err == io.EOF {
 		return nil, io.EOF
 	}
 	if count != 60 {
